@@ -38,7 +38,7 @@ def page_image(seed, h=200, w=320):
     return ((base + rs.randint(0, 40, size=(h, w, 3))) % 256).astype(np.uint8)
 
 
-def make_job(root, page_ids, lines_per_page, seeds):
+def make_job(root, page_ids, lines_per_page, seeds, heightless=False):
     """creates <root>/img, <root>/xml (inputs) and <root>/config.ini; returns dict of paths."""
     import cv2
     from pero_ocr.core.layout import PageLayout, RegionLayout, TextLine
@@ -56,7 +56,17 @@ def make_job(root, page_ids, lines_per_page, seeds):
             y = 40.0 + 50 * li
             base = np.asarray([[10.0 + 7 * li, y], [250.0 - 20 * li, y + (li % 2) * 2]])
             poly = np.asarray([[base[0, 0], y - 12], [base[1, 0], y - 12], [base[1, 0], y + 4], [base[0, 0], y + 4]])
-            reg.lines.append(TextLine(id="r1-l%03d" % (li + 1), baseline=base, polygon=poly, heights=[12.0, 4.0]))
+            heights = [12.0, 4.0]
+            if heightless and li == 0:
+                # as imported from other tools: no stored heights (they are guessed from the polygon on import), a
+                # baseline of many points and an outline whose thickness varies along the line
+                xs = np.linspace(base[0, 0], base[1, 0], 14)
+                base = np.stack([xs, np.full_like(xs, y)], axis=1)
+                up = np.stack([xs, y - 8 - 6 * (np.arange(14) % 3)], axis=1)
+                down = np.stack([xs[::-1], np.full(14, y + 4.0)], axis=1)
+                poly = np.concatenate([up, down], axis=0)
+                heights = None
+            reg.lines.append(TextLine(id="r1-l%03d" % (li + 1), baseline=base, polygon=poly, heights=heights))
         pl.regions = [reg]
         pl.to_pagexml(os.path.join(xml_dir, pid + ".xml"))
     cfg = os.path.join(root, "config.ini")
@@ -72,7 +82,7 @@ def out_dirs(root, name, kinds):
     return {k: os.path.join(base, k) for k in kinds}
 
 
-def argv_for(job, outs, skip=False, process_count=1):
+def argv_for(job, outs, skip=False, process_count=1, skip_missing_xml=False):
     a = ["parse_folder.py", "-c", job["config"], "-i", job["img"], "-x", job["xml"], "--device", "cpu",
          "--process-count", str(process_count)]
     flag = {"xml": "--output-xml-path", "render": "--output-render-path", "logits": "--output-logit-path",
@@ -81,6 +91,8 @@ def argv_for(job, outs, skip=False, process_count=1):
         a += [flag[k], d]
     if skip:
         a.append("-s")
+    if skip_missing_xml:
+        a.append("--skipp-missing-xml")
     return a
 
 
